@@ -295,6 +295,12 @@
 //! [1]: https://crates.io/crates/oneshot
 
 #[cfg(debug_assertions)]
+#[cfg(folo_verif)]
+#[path = "../../testing/verif/sync_shim.rs"]
+mod verif_sync;
+#[cfg(folo_verif)]
+#[doc(hidden)]
+pub mod __verif;
 mod backtrace;
 mod constants;
 mod core;
